@@ -140,6 +140,40 @@ func c11Extra(outDir string, meta *Meta) {
 			}
 		}
 	}
+	// ---- (3b) an absolute-path reference in a document that has a host: read from that host, never from the local file system ----
+	for _, ref := range []string{"/etc/secret.json", "/etc/secret.json#/components/schemas/X", "/api/defs.json#/components/schemas/X"} {
+		leaf := `{"type":"string","description":"remote"}`
+		whole := `{"openapi":"3.0.3","info":{"title":"a","version":"1"},"paths":{},"components":{"schemas":{"X":{"type":"string","description":"remote"}}}}`
+		root := `{"openapi":"3.0.3","info":{"title":"r","version":"1"},"paths":{},"components":{"schemas":{"Y":{"$ref":"` + ref + `"}}}}`
+		store := map[string]string{"http://h.example/api/root.json": root, "http://h.example/etc/secret.json": leaf, "http://h.example/api/defs.json": whole}
+		if strings.Contains(ref, "#") {
+			store["http://h.example/etc/secret.json"] = whole
+		}
+		var reads []string
+		loader := openapi3.NewLoader()
+		loader.IsExternalRefsAllowed = true
+		loader.ReadFromURIFunc = func(_ *openapi3.Loader, u *url.URL) ([]byte, error) {
+			reads = append(reads, u.String())
+			if d, ok := store[u.String()]; ok {
+				return []byte(d), nil
+			}
+			return nil, fmt.Errorf("not found: %s", u)
+		}
+		desc := map[string]any{"root": "http://h.example/api/root.json", "ref": ref}
+		meta.Histogram["absolute path in a remote document"]++
+		ru, _ := url.Parse("http://h.example/api/root.json")
+		pn := catchPanic(func() { _, _ = loader.LoadFromURI(ru) })
+		if pn != nil {
+			viol("remote-absolute-path:panic", desc, fmt.Sprint(pn))
+			continue
+		}
+		for _, rd := range reads {
+			if !strings.HasPrefix(rd, "http://h.example/") {
+				viol("remote-absolute-path:local-file-read-for-a-reference-found-in-a-remote-document", desc, "reads: "+strings.Join(reads, ", "))
+				break
+			}
+		}
+	}
 	// ---- (4) LoadFromFile: the root that is read is the file that was named, whatever characters its name has ----
 	dir2, _ := filepath.Abs(filepath.Join(outDir, "names"))
 	os.RemoveAll(dir2)
